@@ -24,6 +24,7 @@
 import Shangrla.Props.C05
 import Shangrla.Props.C11Kaplan
 import Shangrla.Props.C11Mart
+import Shangrla.Props.C11Shipped
 
 namespace Shangrla.C10
 open Shangrla Shangrla.NM Shangrla.XR
@@ -530,5 +531,94 @@ theorem risk_mono_run_unguarded_false_nan : ¬ risk_mono_run_unguarded := by
     decide +kernel
   have := H _ _ _ _ _ _ _ rfl (by simp) e0 e1
   cases this
+
+/-! ### ALPHA and betting with the shipped estimators / bets, under guards on the configuration only
+(`C11.wellformed_run_alpha`, `C11.wellformed_run_betting`) -/
+
+theorem fits_head {N : Option Nat} {x y : List Rat} (hN : ∀ n, N = some n → (x ++ y).length ≤ n) :
+    ∀ n, N = some n → x.length ≤ n := by
+  intro n hn
+  have := hN n hn
+  rw [List.length_append] at this
+  omega
+
+/-- **C10, risk, ALPHA with every shipped estimator.**  Random order, `x` non-empty, `|x ++ y| ≤ N` for
+finite `N`, observations in `[0,u]`, `atol, rtol ≥ 0`, and the parameter guards `C11.AlphaRunGuard`
+(`d > 0`, `f ≥ 0`, `minsd > 0` for `shrink_trunc`; `u ≠ 1` for `optimal_comparison`). -/
+theorem risk_mono_alpha_shipped (sqrtF : Rat → Rat) (hs : C13.SqrtOK sqrtF) (cfg : Cfg) (e : Estim)
+    (hro : cfg.randomOrder = true) (x y : List Rat) (hne : x ≠ [])
+    (hN : ∀ n, cfg.N = some n → (x ++ y).length ≤ n) (hxy : ∀ a ∈ x ++ y, 0 ≤ a ∧ a ≤ cfg.u)
+    (hat : 0 ≤ cfg.atol) (hrt : 0 ≤ cfg.rtol) (hg : C11.AlphaRunGuard cfg e)
+    (r0 r1 : XR × List XR) (H0 : run sqrtF cfg (.alpha e) x = .ok r0)
+    (H1 : run sqrtF cfg (.alpha e) (x ++ y) = .ok r1) : XR.le r1.1 r0.1 = true := by
+  have hx : ∀ a ∈ x, 0 ≤ a ∧ a ≤ cfg.u := fun a ha => hxy a (List.mem_append_left _ ha)
+  have hy : ∀ a ∈ y, 0 ≤ a := fun a ha => (hxy a (List.mem_append_right _ ha)).1
+  obtain ⟨r0', E0, W0⟩ := C11.wellformed_run_alpha sqrtF hs cfg e x hne (fits_head hN) hx hat hrt hg
+  obtain ⟨r1', E1, W1⟩ := C11.wellformed_run_alpha sqrtF hs cfg e (x ++ y) (by simp [hne]) hN hxy hat hrt hg
+  rw [H0] at E0
+  rw [H1] at E1
+  cases E0
+  cases E1
+  rw [hro] at W0 W1
+  exact risk_mono_alpha_wf cfg (estim sqrtF cfg e) (C05.scE_estim sqrtF cfg e) (C05.lpE_estim sqrtF cfg e)
+    x y hy r0 r1 H0 H1 W0 W1
+
+/-- **C10, risk, betting martingale with every shipped bet.**  Random order, `x` non-empty,
+`|x ++ y| ≤ N`, observations in `[0,u]`, `atol, rtol ≥ 0`, the documented parameter ranges `C13.BetGuard`
+and, for `fixed_bet`, the attribute `lam` being set. -/
+theorem risk_mono_betting_shipped (sqrtF : Rat → Rat) (hs : C13.SqrtOK sqrtF) (cfg : Cfg) (b : Bet)
+    (hro : cfg.randomOrder = true) (x y : List Rat) (hne : x ≠ [])
+    (hN : ∀ n, cfg.N = some n → (x ++ y).length ≤ n) (hxy : ∀ a ∈ x ++ y, 0 ≤ a ∧ a ≤ cfg.u)
+    (hat : 0 ≤ cfg.atol) (hrt : 0 ≤ cfg.rtol) (hg : C13.BetGuard cfg)
+    (hlam : b = .fixed → cfg.kw.lam ≠ none)
+    (r0 r1 : XR × List XR) (H0 : run sqrtF cfg (.betting b) x = .ok r0)
+    (H1 : run sqrtF cfg (.betting b) (x ++ y) = .ok r1) : XR.le r1.1 r0.1 = true := by
+  have hx : ∀ a ∈ x, 0 ≤ a ∧ a ≤ cfg.u := fun a ha => hxy a (List.mem_append_left _ ha)
+  have hy : ∀ a ∈ y, 0 ≤ a := fun a ha => (hxy a (List.mem_append_right _ ha)).1
+  obtain ⟨r0', E0, W0⟩ := C11.wellformed_run_betting sqrtF hs cfg b x hne (fits_head hN) hx hat hrt hg hlam
+  obtain ⟨r1', E1, W1⟩ := C11.wellformed_run_betting sqrtF hs cfg b (x ++ y) (by simp [hne]) hN hxy hat hrt
+    hg hlam
+  rw [H0] at E0
+  rw [H1] at E1
+  cases E0
+  cases E1
+  rw [hro] at W0 W1
+  exact risk_mono_betting_wf cfg (bet sqrtF cfg b) (C05.scE_bet sqrtF cfg b) (C05.lpE_bet sqrtF cfg b)
+    x y hy r0 r1 H0 H1 W0 W1
+
+-- non-vacuity: the constructor's defaults `C13.cfgF` (`N = 5`, `u = 1`, `t = 1/2`, random order), both bets,
+-- `x = [0, 0]`, `y = [1, 1/2]`
+example (b : Bet) (r0 r1 : XR × List XR) (H0 : run sqrtRat C13.cfgF (.betting b) [0, 0] = .ok r0)
+    (H1 : run sqrtRat C13.cfgF (.betting b) ([0, 0] ++ [1, 1 / 2]) = .ok r1) : XR.le r1.1 r0.1 = true :=
+  risk_mono_betting_shipped sqrtRat C13.sqrtRat_ok C13.cfgF b rfl [0, 0] [1, 1 / 2] (by simp)
+    (by intro n h; cases h; decide)
+    (by intro a ha; simp at ha; rcases ha with rfl | rfl | rfl <;> norm_num [C13.cfgF, Cfg.init])
+    (by norm_num [C13.cfgF, Cfg.init, eps]) (by norm_num [C13.cfgF, Cfg.init]) C11.betGuard_F
+    (by intro _ h; cases h) r0 r1 H0 H1
+
+-- ... and both runs do return (so `H0`, `H1` are satisfiable)
+example (b : Bet) : (∃ r0, run sqrtRat C13.cfgF (.betting b) [0, 0] = .ok r0) ∧
+    ∃ r1, run sqrtRat C13.cfgF (.betting b) ([0, 0] ++ [1, 1 / 2]) = .ok r1 := by
+  constructor
+  · obtain ⟨r, hr, _⟩ := C11.wellformed_run_betting sqrtRat C13.sqrtRat_ok C13.cfgF b [0, 0] (by simp)
+      (by intro n h; cases h; decide)
+      (by intro a ha; simp at ha; subst ha; norm_num [C13.cfgF, Cfg.init])
+      (by norm_num [C13.cfgF, Cfg.init, eps]) (by norm_num [C13.cfgF, Cfg.init]) C11.betGuard_F
+      (by intro _ h; cases h)
+    exact ⟨r, hr⟩
+  · obtain ⟨r, hr, _⟩ := C11.wellformed_run_betting sqrtRat C13.sqrtRat_ok C13.cfgF b ([0, 0] ++ [1, 1 / 2])
+      (by simp) (by intro n h; cases h; decide)
+      (by intro a ha; simp at ha; rcases ha with rfl | rfl | rfl <;> norm_num [C13.cfgF, Cfg.init])
+      (by norm_num [C13.cfgF, Cfg.init, eps]) (by norm_num [C13.cfgF, Cfg.init]) C11.betGuard_F
+      (by intro _ h; cases h)
+    exact ⟨r, hr⟩
+
+-- ALPHA, with replacement (`C13.cfgB`), every estimator
+example (e : Estim) (r0 r1 : XR × List XR) (H0 : run sqrtRat C13.cfgB (.alpha e) [0, 0] = .ok r0)
+    (H1 : run sqrtRat C13.cfgB (.alpha e) ([0, 0] ++ [1, 1 / 2]) = .ok r1) : XR.le r1.1 r0.1 = true :=
+  risk_mono_alpha_shipped sqrtRat C13.sqrtRat_ok C13.cfgB e rfl [0, 0] [1, 1 / 2] (by simp)
+    (C13.lenB _)
+    (by intro a ha; simp at ha; rcases ha with rfl | rfl | rfl <;> norm_num [C13.cfgB])
+    (by norm_num [C13.cfgB, eps]) (by norm_num [C13.cfgB]) (C11.alphaRunGuard_B e) r0 r1 H0 H1
 
 end Shangrla.C10
